@@ -98,6 +98,21 @@ class DynamicSGEDecider(SynthesisDecider):
             )
 
 
+class GenotypeSource(RandomSource):
+    """Random source handed to metahandlers during the mapping: reads (and, on demand,
+    extends) the genotype, so that refined values are part of the genotype as well."""
+
+    def __init__(self, decider: DynamicSGEDecider):
+        self.decider = decider
+
+    def randint(self, min: int, max: int) -> int:
+        return self.decider.random_int(min, max)
+
+    def random_float(self, min: float, max: float) -> float:
+        v = self.decider.read(float)
+        return (v % (MAX_GENE_VALUE + 1)) / MAX_GENE_VALUE * (max - min) + min
+
+
 class DynamicStructuredGrammaticalEvolutionRepresentation(
     Representation[Genotype, TreeNode],
     RepresentationWithMutation[Genotype],
@@ -125,7 +140,7 @@ class DynamicStructuredGrammaticalEvolutionRepresentation(
 
     def genotype_to_phenotype(self, genotype: Genotype) -> TreeNode:
         decider = DynamicSGEDecider(genotype, self.grammar, self.max_depth)
-        return random_tree(genotype.random, self.grammar, decider)
+        return random_tree(GenotypeSource(decider), self.grammar, decider)
 
     def mutate(self, random: RandomSource, genotype: Genotype, **kwargs) -> Genotype:
         dna = {k: list(v) for k, v in genotype.dna.items()}
